@@ -6,7 +6,10 @@ package simrt
 import (
 	"fmt"
 	"os"
+	"regexp"
 	"runtime"
+	"sort"
+	"strconv"
 	"strings"
 	"sync"
 	"sync/atomic"
@@ -165,9 +168,14 @@ type Sim struct {
 	stamp atomic.Int64
 
 	maxSteps int
-	barrier  []chan struct{}
+	cleanup  []func()
 	stuck    bool
 }
+
+// Cleanup registers f to run (on the driver, in reverse order) when the body
+// returns, normally or not; afterwards the scheduler runs everything to
+// quiescence once more so that every goroutine of the run can exit.
+func (sim *Sim) Cleanup(f func()) { sim.cleanup = append(sim.cleanup, f) }
 
 // Stamp returns the next value of the run-global event sequence number.
 func (sim *Sim) Stamp() int64 { return sim.stamp.Add(1) }
@@ -284,6 +292,52 @@ func (d *detReader) Read(p []byte) (int, error) {
 	return len(p), nil
 }
 
+var bubbleRe = regexp.MustCompile(`synctest bubble (\d+)`)
+
+func leakSummary() string {
+	var fr []string
+	gs := BubbleGoroutines()
+	maxB := 0
+	bub := func(g string) int {
+		m := bubbleRe.FindStringSubmatch(strings.SplitN(g, "\n", 2)[0])
+		if m == nil {
+			return -1
+		}
+		n, _ := strconv.Atoi(m[1])
+		return n
+	}
+	for _, g := range gs {
+		if b := bub(g); b > maxB {
+			maxB = b
+		}
+	}
+	for _, g := range gs {
+		if bub(g) != maxB {
+			continue // left over from an earlier run of this process
+		}
+		lines := strings.Split(g, "\n")
+		top := ""
+		for _, l := range lines[1:] {
+			l = strings.TrimSpace(l)
+			if strings.Contains(l, "mocrelay") && !strings.Contains(l, "verifsim") && !strings.HasPrefix(l, "/") && !strings.Contains(l, ".go:") {
+				top = l
+				break
+			}
+		}
+		if top != "" {
+			if i := strings.Index(top, "("); i > 0 {
+				top = top[:i]
+			}
+			fr = append(fr, top)
+		}
+	}
+	sort.Strings(fr)
+	if len(fr) > 6 {
+		fr = fr[:6]
+	}
+	return strings.Join(fr, ", ")
+}
+
 // Run executes body inside a fresh bubble under schedule sch.
 func Run(t *testing.T, sch Schedule, maxSteps int, body func(sim *Sim)) (res *Result) {
 	res = &Result{}
@@ -296,8 +350,11 @@ func Run(t *testing.T, sch Schedule, maxSteps int, body func(sim *Sim)) (res *Re
 				fmt.Fprintf(os.Stderr, "PANIC %v\n%s\n", p, buf)
 			}
 			if strings.Contains(msg, "deadlock") && strings.Contains(msg, "bubble") {
-				// goroutines of the bubble were still blocked when the run ended
-				res.Harness = "bubble-leak: " + msg
+				// goroutines of the bubble were still blocked when the run ended:
+				// that is the C13 property (sessions release everything), whichever
+				// engine observed it
+				res.Violations = append(res.Violations, Violation{Property: "C13", Class: "goroutine-leak",
+					Step: res.Stats.Steps, Msg: "goroutines still blocked after the run was torn down: " + leakSummary()})
 			} else {
 				res.Harness = "panic: " + msg
 			}
@@ -330,14 +387,21 @@ func Run(t *testing.T, sch Schedule, maxSteps int, body func(sim *Sim)) (res *Re
 			}
 			s.Deactivate()
 		}()
-		defer func() {
-			if p := recover(); p != nil {
-				buf := make([]byte, 16<<10)
-				buf = buf[:runtime.Stack(buf, false)]
-				res.Harness = fmt.Sprintf("panic in run body: %v\n%s", p, buf)
-			}
+		func() {
+			defer func() {
+				if p := recover(); p != nil {
+					buf := make([]byte, 16<<10)
+					buf = buf[:runtime.Stack(buf, false)]
+					res.Harness = fmt.Sprintf("panic in run body: %v\n%s", p, buf)
+				}
+			}()
+			body(sim)
 		}()
-		body(sim)
+		for i := len(sim.cleanup) - 1; i >= 0; i-- {
+			sim.cleanup[i]()
+		}
+		sim.maxSteps += 20000
+		sim.Drive()
 	})
 	return res
 }
